@@ -14,6 +14,7 @@ from __future__ import annotations
 
 import sys
 import threading
+import time
 
 
 class ReplayDivergence(Exception):
@@ -111,7 +112,7 @@ class Baton:
         return ex
 
 
-def explore(make_baton, check, bound=None, max_runs=None, on_run=None):
+def explore(make_baton, check, bound=None, max_runs=None, on_run=None, deadline=None):
     """Iterative context bounding over schedules.
 
     make_baton() -> fresh Baton (fresh threads, fresh state) for every execution
@@ -127,6 +128,9 @@ def explore(make_baton, check, bound=None, max_runs=None, on_run=None):
         prefix = stack.pop()
         if max_runs is not None and runs >= max_runs:
             capped = True
+            break
+        if deadline is not None and (runs & 63) == 0 and time.time() > deadline:
+            capped = True  # time budget of the check: the schedules explored so far are reported, the rest is not claimed
             break
         ex = make_baton().run(prefix)
         runs += 1
